@@ -33,7 +33,9 @@ def with_enc(cases):
     out = []
     for c in cases:
         for e in encodings(c["args"]["parts"]):
-            out.append(dict(op="slice", shapes=c["shapes"], args=dict(parts=c["args"]["parts"], enc=e)))
+            if c["op"] == "slice_index" and e == "variadic":
+                continue            # the variadic front end exists at the view level only
+            out.append(dict(op=c["op"], shapes=c["shapes"], args=dict(c["args"], enc=e)))
     return out
 
 
@@ -71,12 +73,12 @@ def n_ell(parts):
 
 def fewer_parts_no_ellipsis(case):
     parts = case["args"]["parts"]
-    return case.get("op") == "slice" and n_ell(parts) == 0 and len(parts) < len(case["shapes"][0])
+    return case.get("op") in ("slice", "slice_index") and n_ell(parts) == 0 and len(parts) < len(case["shapes"][0])
 
 
 def ellipsis_for_zero_axes(case):
     parts = case["args"]["parts"]
-    return case.get("op") == "slice" and n_ell(parts) == 1 and len(parts) - 1 == len(case["shapes"][0])
+    return case.get("op") in ("slice", "slice_index") and n_ell(parts) == 1 and len(parts) - 1 == len(case["shapes"][0])
 
 
 PREDS = dict(slice_fewer_parts_no_ellipsis=fewer_parts_no_ellipsis, slice_ellipsis_for_zero_axes=ellipsis_for_zero_axes)
@@ -96,19 +98,24 @@ def run(tier, seed):
     table = []
     for f in ("axis", "multi"):
         table += vlib.tlc_generate("GenSlice", "GenSlice_" + tier, env={"FAM": f}, key_extra=f)
+    big = []
+    for f in ("bigaxis", "bigmulti"):
+        big += vlib.tlc_generate("GenSlice", "GenSlice_" + tier, env={"FAM": f}, key_extra=f)
     extra = seeded(ck, 4000 if tier == "quick" else 50000)
-    cases = opslib.number(with_enc(table + extra))
+    cases = opslib.number(with_enc(table + extra + big))
     drv = vlib.build_driver("drv_slice")
     opslib.run_ops(ck, drv, cases, want="valid", label="slice", describe=describe)
     ck.nontrivial_count = len({vlib.canon([c["shapes"], c["args"]["parts"]]) for c in cases
                                if any(p["k"] == "s" and (p["start"] or p["stop"] or p["step"]) for p in c["args"]["parts"])})
     ck.rule = ("cases = TLC export of the per-axis family (every n in 1..N, start/stop in [-(n+2), n+2] or omitted, step in {-3..-1,1..3} or omitted; quick N=4, thorough N=6), "
-               "a multi-axis family over a menu of parts with the ellipsis in every position, and seeded multi-axis specifications; every case runs under every encoding "
+               "a multi-axis family over a menu of parts with the ellipsis in every position, seeded multi-axis specifications, and an index-math family (op slice_index: "
+               "index::apply_shape_slice / index::apply_slice on a shape without an array, extents 2^24+1 .. 2^31-9 in 1-3 axes, bounds around 0, n/2, n of either sign, every step in -3..3, "
+               "result shape plus the source index of the first / middle / last result index); every case runs under every encoding "
                "that can express it (packed tuple, (start,stop) pairs, variadic front end, list-of-either, list of array<int,3>); non-trivial = distinct (shape, spec) with at least one non-default range part")
     ck.exhaustive = True
-    ck.extra.update(table_cases=len(table), seeded_cases=len(extra), events_per_encoding=True)
+    ck.extra.update(table_cases=len(table), seeded_cases=len(extra), big_extent_cases=len(big), events_per_encoding=True)
     ck.assumptions += ["None-ness of slice parts is a compile-time property in nmtools: multi-part packed specifications are limited to the part types int, ellipsis, (None,None,None), (None,None,step), (start,stop,step)",
-                       "extents above 2^24 at the index-math level (float ceil) are not exercised in this tier"]
+                       "extents above 2^24 are exercised at the index-math level only (shape function and index map without an array behind them)"]
     for c in cases[:2] + cases[-2:]: ck.sample(c)
     return ck.finish()
 
